@@ -237,6 +237,7 @@ def run(chk):
                 mlines.append((idx, mode, cor, wire_sent, sha_hdr, md5v if c["use_md5"] else None, c["algo"], ckv, declared, seed, keyb, stsP, stsT, dexp))
             # ---- directory objects: the payload is empty, the integrity assertions of the request still have to hold
             dres = dirobj_cases(chk, cl, label, rnd)
+            unsigned_chunk_cases(chk, cl, label, rnd)
             chk.tie("gateway still running after the uploads", g.alive(), g.log_tail())
 
     # ---- two uploads to one key (or one part) in flight at the same time, in both temp-file strategies: the first has received its
@@ -352,7 +353,7 @@ def dirobj_cases(chk, cl, label, rnd):
     md5ok = base64.b64encode(hashlib.md5(empty).digest()).decode()
     out = []
     n = 0
-    for cor in ("none", "wrong-md5", "wrong-sha256", "wrong-cksum-crc32", "wrong-cksum-sha256", "wrong-chunk-sig", "wrong-trailer"):
+    for cor in ("none", "wrong-md5", "wrong-sha256", "wrong-cksum-crc32", "wrong-cksum-sha256", "wrong-chunk-sig", "wrong-trailer", "more-data-than-declared"):
         for had_old in (False, True):
             n += 1
             key = "dirobj%s%d/" % (label, n)
@@ -368,6 +369,11 @@ def dirobj_cases(chk, cl, label, rnd):
                 headers["x-amz-checksum-" + algo] = wrong_b64(cksum(algo, empty))
             if cor == "wrong-sha256":
                 resp = cl.req("PUT", path, body=empty, headers=headers, payload_hash=hashlib.sha256(b"x").hexdigest())
+            elif cor == "more-data-than-declared":
+                # a correctly signed chunked body that carries five bytes under a declared decoded length of zero
+                headers.update({"x-amz-decoded-content-length": "0", "content-encoding": "aws-chunked"})
+                resp, _ = cl.req_streaming("PUT", path, lambda sig, k, amzdate, d8, region: chunkenc.encode_signed([b"hello"], k, sig, None, amzdate, d8, region),
+                                           headers=headers, payload_type="STREAMING-AWS4-HMAC-SHA256-PAYLOAD")
             elif cor in ("wrong-chunk-sig", "wrong-trailer"):
                 headers.update({"x-amz-decoded-content-length": "0", "content-encoding": "aws-chunked"})
                 if cor == "wrong-trailer":
@@ -401,6 +407,37 @@ def dirobj_cases(chk, cl, label, rnd):
                 chk.fail("c06:failed-upload-changed-key:dirobj:%s" % cor, "a refused PutObject of a directory object (%s, %d %s) changed the key's state from %r to %r" % (cor, resp.status, resp.code, before, state), view)
             out.append(view)
     return out
+
+
+def unsigned_chunk_cases(chk, cl, label, rnd):
+    """a signed aws-chunked upload (the declared decoded length is not among the signed headers, as a client may choose) into which a
+    chunk WITHOUT a signature is inserted: every chunk of such a stream carries a signature that has to verify"""
+    n = 0
+    for ptype, trailer in (("STREAMING-AWS4-HMAC-SHA256-PAYLOAD", None), ("STREAMING-AWS4-HMAC-SHA256-PAYLOAD-TRAILER", "crc32")):
+        for base_chunks in ([b"genuine-data-" * 5], [], [b"first-chunk" * 9, b"second" * 11]):
+            for where in ("before-final", "first"):
+                n += 1
+                key = "unsignedchunk%s%d" % (label, n); path = "/bk1/" + key
+                inj = b"INJECTED-" + key.encode()
+                hd = {"content-encoding": "aws-chunked"}
+                if trailer: hd["x-amz-trailer"] = "x-amz-checksum-crc32"
+                total = sum(len(c) for c in base_chunks) + len(inj)
+                def mk(sig, k, amzdate, d8, region, base_chunks=base_chunks, where=where, trailer=trailer, inj=inj):
+                    b = chunkenc.encode_signed(base_chunks, k, sig, trailer, amzdate, d8, region)
+                    piece = ("%x;chunk-signature=\r\n" % len(inj)).encode() + inj + b"\r\n"
+                    if where == "first" or not base_chunks:
+                        return piece + b
+                    i = b.rindex(b"0;chunk-signature=")
+                    return b[:i] + piece + b[i:]
+                resp, _ = cl.req_streaming("PUT", path, mk, headers=hd, payload_type=ptype, tamper=lambda h, total=total: h.update({"x-amz-decoded-content-length": str(total)}))
+                gr = cl.req("GET", path)
+                chk.case(("unsigned-chunk", label, ptype, len(base_chunks), where), True); chk.traces += 1
+                chk.count("unsigned-chunk:%s:%d" % (where, resp.status))
+                row = {"config": label, "payload_type": ptype, "signed_chunks": len(base_chunks), "unsigned_chunk_inserted": where, "status": resp.status, "code": resp.code,
+                       "stored_after": None if gr.status != 200 else (len(gr.body), inj in gr.body)}
+                if resp.status == 200 or gr.status == 200:
+                    chk.fail("c06:corrupt-upload-committed:chunk-without-signature", "[%s] a signed aws-chunked upload (%s, %d signed chunks) with an extra chunk whose chunk-signature is empty was answered %d; the key then holds %s" % (
+                        label, ptype, len(base_chunks), resp.status, "an object containing the unsigned bytes" if gr.status == 200 and inj in gr.body else "status %d" % gr.status), row)
 
 def code_matches(model_err, status, code):
     exp = {"Sha256Mismatch": {"XAmzContentSHA256Mismatch"}, "InvalidDigest": {"InvalidDigest", "BadDigest"}, "BadChecksum": {"BadDigest"},
